@@ -335,6 +335,7 @@ def run(plan, tier="quick") -> RunResult:
     try:
         import cogent3.app.sqlite_data_store  # noqa: F401  (module must exist before the shim)
 
+        simos.set_pid(sql.pid)
         with sim, sql:
             try:
                 store.open(plan["mode"])
@@ -388,6 +389,7 @@ def run(plan, tier="quick") -> RunResult:
                         store.ds = None
                         sql.close_all()
                         sql.pid += 1
+                        simos.set_pid(sql.pid)
                         try:
                             store.open(op["mode"])
                         except OSError as e:
@@ -551,6 +553,7 @@ def run(plan, tier="quick") -> RunResult:
                     break
     finally:
         sql.close_all()
+        simos.set_pid(None)
         simos.remove_sandbox(root)
     res.executions = 1
     res.events = len(sim.events) + sql.mutating
